@@ -182,6 +182,8 @@ func buildMech(c caseSpec) (sasl.Mechanism, error) {
 
 var apiRanges = [][3]int16{{18, 0, 2}, {3, 1, 1}, {10, 0, 0}, {2, 1, 1}}
 
+func be32c(v uint32) []byte { return []byte{byte(v >> 24), byte(v >> 16), byte(v >> 8), byte(v)} }
+
 func rangeStr(r *[2]int16) string {
 	if r == nil {
 		return "none"
@@ -342,6 +344,13 @@ func serve(conn net.Conn, c caseSpec, lg *connLog) {
 			if err != nil {
 				panic(err)
 			}
+			if c.failAt == "versions" && c.failKind == "negcount" {
+				// a malformed ApiVersions answer: the array of api keys announces a negative number of entries
+				lg.addEnv("IOERR")
+				body := append(be32c(uint32(h.Corr)), 0, 0, 0xff, 0xff, 0xff, 0xfe) // -2: -1 would be a null array, which is well formed
+				conn.Write(append(be32c(uint32(len(body))), body...))
+				continue
+			}
 			if c.failAt == "versions" && c.failKind != "code" {
 				if fail(b, 4, true) {
 					return
@@ -418,6 +427,9 @@ func errClass(err error) string {
 	if err == nil {
 		return "ok"
 	}
+	if strings.HasPrefix(err.Error(), "panic: ") {
+		return "panic"
+	}
 	var ke kafka.Error
 	if errors.As(err, &ke) {
 		return fmt.Sprintf("err:kafka:%d", int(ke))
@@ -473,7 +485,17 @@ func runCase(c caseSpec) (res caseResult, skip string) {
 
 	if c.path == "dialer" {
 		d := &kafka.Dialer{DialFunc: dial, SASLMechanism: mech, ClientID: "c18"}
-		conn, err := d.DialContext(ctx, "tcp", c.address())
+		var conn *kafka.Conn
+		var err error
+		func() {
+			// a malformed answer must make the dial FAIL, not crash the caller
+			defer func() {
+				if p := recover(); p != nil {
+					err = fmt.Errorf("panic: %v", p)
+				}
+			}()
+			conn, err = d.DialContext(ctx, "tcp", c.address())
+		}()
 		res.final = errClass(err)
 		if err == nil {
 			conn.SetDeadline(time.Now().Add(10 * time.Second))
@@ -583,7 +605,12 @@ func main() {
 			for _, at := range []string{"versions", "handshake", "auth1", "auth2", "auth3"} {
 				for _, kind := range []string{"code", "eof", "badid", "trunc", "neglen"} {
 					if kind == "neglen" && !strings.HasPrefix(at, "auth") {
-						continue
+						// the protocol package (Transport path) reads every negative array length as a null array — codec policy,
+						// not an authentication failure — so the malformed count is placed on the Dialer path only
+						kind = "negcount"
+						if at != "versions" || path != "dialer" {
+							continue
+						}
 					}
 					m := []string{"plain", "scram256", "steps"}[r.Intn(3)]
 					if at == "auth2" && m == "plain" {
